@@ -1,6 +1,493 @@
-//! C18 — implementation side of the correspondence (stub).
+//! C18 — reference objects and the register harness: implementation side + oracle inputs.
+//! Part 1: random op/ret sequences (valid / invalid / mixed) on Register, WORegister, Vec and table
+//!         specs: `invoke`, `is_valid_step` (verdict and object afterwards), `is_valid_history`.
+//! Part 2: register-harness systems: RegisterActor / WORegisterActor clients around table-driven
+//!         servers that answer each request at most once (now, later, never, out of order), both
+//!         testers, three network kinds; the `Model` trait is walked breadth-first and at every reached
+//!         state the clients' states and the tester's `Debug` are compared with the model; the oracle
+//!         gets the client-visible calls reconstructed from the path and the tester's content.
 use srh::out::*;
+use srh::rng::Rng;
+use srh::sem_util::*;
+use stateright::actor::register::{RegisterActor, RegisterActorState, RegisterMsg};
+use stateright::actor::write_once_register::{WORegisterActor, WORegisterActorState, WORegisterMsg};
+use stateright::actor::{Actor, ActorModel, ActorModelAction, ActorModelState, Command, Id, LossyNetwork, Network, Out as AOut};
+use stateright::semantics::register::Register;
+use stateright::semantics::write_once_register::WORegister;
+use stateright::semantics::{LinearizabilityTester, SequentialConsistencyTester};
+use stateright::Model;
+use std::borrow::Cow;
+use std::collections::{BTreeSet, HashSet, VecDeque};
+use std::fmt::Debug;
+use std::hash::Hash;
+use std::sync::Arc;
+
+// ------------------------------------------------------------------------------------------------
+// part 1: reference objects
+// ------------------------------------------------------------------------------------------------
+fn obj_seq<O>(out: &mut Out, r: &mut Rng, init: &O)
+where
+    O: Wire,
+    O::Op: Clone + Debug,
+    O::Ret: Clone + Debug + PartialEq,
+{
+    let n = r.range(1, 8);
+    let mode = r.below(3);
+    let mut cur = init.clone();
+    let mut l: Vec<(O::Op, O::Ret)> = Vec::new();
+    let mut all_ok = true;
+    for _ in 0..n {
+        let op = cur.gen_op(r);
+        let mut a = cur.clone();
+        let iret = a.invoke(&op);
+        let ret = match mode {
+            0 => iret.clone(),
+            1 => cur.gen_ret(r),
+            _ => if r.chance(3, 4) { iret.clone() } else { cur.gen_ret(r) },
+        };
+        let mut b = cur.clone();
+        let verdict = b.is_valid_step(&op, &ret);
+        let obj = cur.obj_sx();
+        out.m(&format!("inv {} {}", obj, O::op_sx(&op)), &format!("{} {}", O::ret_sx(&iret), a.state_sx()));
+        out.m(&format!("step {} {} {}", obj, O::op_sx(&op), O::ret_sx(&ret)), &format!("{} {}", srh::sx::b(verdict), b.state_sx()));
+        out.o(&format!("o-step {} {} {} {} {}", O::ret_sx(&ret), O::ret_sx(&iret), a.state_sx(), srh::sx::b(verdict), b.state_sx()));
+        out.stat(&format!("step-{}-{}", O::kind(), if verdict { "accepted" } else { "rejected" }));
+        if !verdict && a.state_sx() != b.state_sx() { out.stat(&format!("rejected-step-object-differs-from-invoke-{}", O::kind())); }
+        if !verdict { all_ok = false; }
+        out.distinct(&(1u8, obj, O::op_sx(&op), O::ret_sx(&ret)));
+        l.push((op, ret));
+        cur = b; // continue from the object as is_valid_step left it (also after a rejection)
+    }
+    let lsx = srh::sx::list(l.iter().map(|(op, rt)| format!("({} {})", O::op_sx(op), O::ret_sx(rt))));
+    let mut c = init.clone();
+    let v = c.is_valid_history(l.clone());
+    out.m(&format!("hist {} {}", init.obj_sx(), lsx), &format!("{} {}", srh::sx::b(v), c.state_sx()));
+    let mut d = init.clone();
+    let trace = srh::sx::list(l.iter().map(|(op, _)| { let rt = d.invoke(op); format!("({} {})", O::op_sx(op), O::ret_sx(&rt)) }));
+    out.o(&format!("o-hist {} {} {}", lsx, trace, srh::sx::b(v)));
+    out.stat(&format!("history-{}-{}", O::kind(), if v { "valid" } else { "invalid" }));
+    if v != all_ok { out.v("history-vs-steps", &format!("is_valid_history={} but stepwise={} on {} {}", v, all_ok, init.obj_sx(), lsx)); }
+    out.stat(&format!("history-len-{}", n));
+    out.distinct(&(2u8, init.obj_sx(), lsx));
+}
+
+// ------------------------------------------------------------------------------------------------
+// part 2: register harness
+// ------------------------------------------------------------------------------------------------
+/// message view shared by RegisterMsg and WORegisterMsg
+#[derive(Clone, Debug, PartialEq)]
+enum M {
+    Internal,
+    Put(u64, char),
+    Get(u64),
+    PutOk(u64),
+    PutFail(u64),
+    GetOk(u64, char),
+}
+trait MsgLike: Clone + Debug + Eq + Hash {
+    fn view(&self) -> M;
+    fn build(m: M) -> Option<Self>;
+    const WO: bool;
+}
+impl MsgLike for RegisterMsg<u64, char, ()> {
+    const WO: bool = false;
+    fn view(&self) -> M {
+        match self {
+            RegisterMsg::Internal(_) => M::Internal,
+            RegisterMsg::Put(r, v) => M::Put(*r, *v),
+            RegisterMsg::Get(r) => M::Get(*r),
+            RegisterMsg::PutOk(r) => M::PutOk(*r),
+            RegisterMsg::GetOk(r, v) => M::GetOk(*r, *v),
+        }
+    }
+    fn build(m: M) -> Option<Self> {
+        Some(match m {
+            M::Internal => RegisterMsg::Internal(()),
+            M::Put(r, v) => RegisterMsg::Put(r, v),
+            M::Get(r) => RegisterMsg::Get(r),
+            M::PutOk(r) => RegisterMsg::PutOk(r),
+            M::PutFail(_) => return None,
+            M::GetOk(r, v) => RegisterMsg::GetOk(r, v),
+        })
+    }
+}
+impl MsgLike for WORegisterMsg<u64, char, ()> {
+    const WO: bool = true;
+    fn view(&self) -> M {
+        match self {
+            WORegisterMsg::Internal(_) => M::Internal,
+            WORegisterMsg::Put(r, v) => M::Put(*r, *v),
+            WORegisterMsg::Get(r) => M::Get(*r),
+            WORegisterMsg::PutOk(r) => M::PutOk(*r),
+            WORegisterMsg::PutFail(r) => M::PutFail(*r),
+            WORegisterMsg::GetOk(r, v) => M::GetOk(*r, *v),
+        }
+    }
+    fn build(m: M) -> Option<Self> {
+        Some(match m {
+            M::Internal => WORegisterMsg::Internal(()),
+            M::Put(r, v) => WORegisterMsg::Put(r, v),
+            M::Get(r) => WORegisterMsg::Get(r),
+            M::PutOk(r) => WORegisterMsg::PutOk(r),
+            M::PutFail(r) => WORegisterMsg::PutFail(r),
+            M::GetOk(r, v) => WORegisterMsg::GetOk(r, v),
+        })
+    }
+}
+fn m_sx(m: &M) -> String {
+    match m {
+        M::Internal => "internal".into(),
+        M::Put(r, v) => format!("(put {} {})", r, *v as u32),
+        M::Get(r) => format!("(get {})", r),
+        M::PutOk(r) => format!("(putok {})", r),
+        M::PutFail(r) => format!("(putfail {})", r),
+        M::GetOk(r, v) => format!("(getok {} {})", r, *v as u32),
+    }
+}
+
+/// table-driven server: answers each (client, request id) at most once — now, later (on a timer,
+/// oldest or newest first), never, or now together with everything pending
+#[derive(Clone)]
+struct Srv<Mg> {
+    plan: Arc<Vec<u8>>,
+    /// misbehaving variant (outside the property's quantifier, model correspondence only): some replies are sent twice
+    twice: bool,
+    _p: std::marker::PhantomData<Mg>,
+}
+#[derive(Clone, Debug, PartialEq, Eq, Hash, Default)]
+struct SrvState {
+    seen: BTreeSet<(Id, u64)>,
+    pending: Vec<(Id, u64, u8, char)>, // client, rid, reply kind, value
+}
+fn reply(kind: u8, is_put: bool, rid: u64, v: char, wo: bool) -> M {
+    let k = kind % 8;
+    if is_put {
+        match k {
+            0..=3 => M::PutOk(rid),
+            4..=6 => if wo { M::PutFail(rid) } else { M::PutOk(rid) },
+            _ => M::GetOk(rid, v), // wrong kind of reply
+        }
+    } else {
+        match k {
+            0..=2 => M::GetOk(rid, v),
+            3..=6 => M::GetOk(rid, (b'A' + (kind % 3)) as char),
+            _ => M::PutOk(rid), // wrong kind of reply
+        }
+    }
+}
+impl<Mg: MsgLike> Actor for Srv<Mg> {
+    type Msg = Mg;
+    type State = SrvState;
+    type Timer = u8;
+    type Random = ();
+    fn on_start(&self, _id: Id, _o: &mut AOut<Self>) -> SrvState {
+        SrvState::default()
+    }
+    fn on_msg(&self, id: Id, state: &mut Cow<SrvState>, src: Id, msg: Mg, o: &mut AOut<Self>) {
+        let (rid, is_put, v) = match msg.view() {
+            M::Put(r, v) => (r, true, v),
+            M::Get(r) => (r, false, '?'),
+            _ => return,
+        };
+        if state.seen.contains(&(src, rid)) { return; }
+        let h = (usize::from(src) * 7 + rid as usize * 3 + usize::from(id) * 5) % self.plan.len();
+        let d = self.plan[h];
+        let kind = d >> 2;
+        let st = state.to_mut();
+        st.seen.insert((src, rid));
+        match d & 3 {
+            0 => {
+                if let Some(m) = Mg::build(reply(kind, is_put, rid, v, Mg::WO)) {
+                    o.send(src, m.clone());
+                    if self.twice && h % 2 == 0 { o.send(src, m); }
+                }
+            }
+            1 => {
+                st.pending.push((src, rid, kind | if is_put { 128 } else { 0 }, v));
+                o.set_timer(0, std::time::Duration::from_secs(1)..std::time::Duration::from_secs(2));
+            }
+            2 => {}
+            _ => {
+                if let Some(m) = Mg::build(reply(kind, is_put, rid, v, Mg::WO)) { o.send(src, m); }
+                let pend: Vec<_> = st.pending.drain(..).collect();
+                for (c, r, k, v) in pend.into_iter().rev() {
+                    if let Some(m) = Mg::build(reply(k & 127, k & 128 != 0, r, v, Mg::WO)) { o.send(c, m); }
+                }
+            }
+        }
+    }
+    fn on_timeout(&self, _id: Id, state: &mut Cow<SrvState>, _t: &u8, o: &mut AOut<Self>) {
+        if state.pending.is_empty() { return; }
+        let st = state.to_mut();
+        let newest_first = self.plan[0] & 1 == 1;
+        let (c, r, k, v) = if newest_first { st.pending.pop().unwrap() } else { st.pending.remove(0) };
+        if let Some(m) = Mg::build(reply(k & 127, k & 128 != 0, r, v, Mg::WO)) { o.send(c, m); }
+        if !st.pending.is_empty() {
+            o.set_timer(0, std::time::Duration::from_secs(1)..std::time::Duration::from_secs(2));
+        }
+    }
+}
+
+/// what the walker needs to see of an actor state
+trait ClientView {
+    fn client(&self) -> Option<(Option<u64>, u64)>;
+}
+impl ClientView for RegisterActorState<SrvState, u64> {
+    fn client(&self) -> Option<(Option<u64>, u64)> {
+        match self { RegisterActorState::Client { awaiting, op_count } => Some((*awaiting, *op_count)), _ => None }
+    }
+}
+impl ClientView for WORegisterActorState<SrvState, u64> {
+    fn client(&self) -> Option<(Option<u64>, u64)> {
+        match self { WORegisterActorState::Client { awaiting, op_count } => Some((*awaiting, *op_count)), _ => None }
+    }
+}
+
+/// tester content through its serde representation: (valid, [(thread, [(op ret)...], inflight op)])
+fn content_of<H: serde::Serialize>(h: &H, wo: bool, lin: bool) -> (bool, String) {
+    let v = serde_json::to_value(h).unwrap();
+    let valid = v["is_valid_history"].as_bool().unwrap();
+    let ch = |x: &serde_json::Value| x.as_str().unwrap().chars().next().unwrap() as u32;
+    let op = |x: &serde_json::Value| -> String {
+        if x.is_string() { "r".into() } else { format!("(w {})", ch(&x["Write"])) }
+    };
+    let ret = |x: &serde_json::Value| -> String {
+        if let Some(s) = x.as_str() { return if s == "WriteOk" { "wok".into() } else { "wfail".into() }; }
+        let y = &x["ReadOk"];
+        if wo { if y.is_null() { "(rok none)".into() } else { format!("(rok (some {}))", ch(y)) } } else { format!("(rok {})", ch(y)) }
+    };
+    let mut threads: BTreeSet<u64> = BTreeSet::new();
+    for k in v["history_by_thread"].as_object().unwrap().keys() { threads.insert(k.parse().unwrap()); }
+    for k in v["in_flight_by_thread"].as_object().unwrap().keys() { threads.insert(k.parse().unwrap()); }
+    let mut items = Vec::new();
+    for t in threads {
+        let key = t.to_string();
+        let done: Vec<String> = match v["history_by_thread"].get(&key) {
+            None => vec![],
+            Some(q) => q.as_array().unwrap().iter().map(|e| {
+                let e = e.as_array().unwrap();
+                if lin { format!("({} {})", op(&e[1]), ret(&e[2])) } else { format!("({} {})", op(&e[0]), ret(&e[1])) }
+            }).collect(),
+        };
+        let pend = match v["in_flight_by_thread"].get(&key) {
+            None => "none".to_string(),
+            Some(e) => format!("(some {})", if lin { op(&e.as_array().unwrap()[1]) } else { op(e) }),
+        };
+        items.push(format!("({} {} {})", t, srh::sx::list(done), pend));
+    }
+    (valid, srh::sx::list(items))
+}
+
+struct SysDesc {
+    kind: &'static str, // lin | sc
+    net: &'static str,
+    servers: usize,
+    clients: Vec<usize>, // put counts
+}
+
+fn sends_sx<A: Actor>(o: &AOut<A>) -> String
+where
+    A::Msg: MsgLike,
+{
+    srh::sx::list(o.iter().filter_map(|c| match c {
+        Command::Send(dst, m) => Some(format!("({} {})", usize::from(*dst), m_sx(&m.view()))),
+        _ => None,
+    }))
+}
+
+fn explore<A, H>(out: &mut Out, model: &ActorModel<A, (), H>, d: &SysDesc, max_states: usize, lin: bool, oracle: bool)
+where
+    A: Actor,
+    A::Msg: MsgLike,
+    A::State: ClientView + Eq,
+    H: Clone + Debug + Hash + serde::Serialize,
+{
+    let wo = <A::Msg as MsgLike>::WO;
+    let n = model.actors.len();
+    // actor descriptions + the log of the initial sends (real on_start of every actor)
+    let mut actors_sx = Vec::new();
+    let mut log0: Vec<String> = Vec::new();
+    for (i, a) in model.actors.iter().enumerate() {
+        let mut o = AOut::new();
+        let _ = a.on_start(Id::from(i), &mut o);
+        if i < d.servers {
+            actors_sx.push(format!("(s {})", sends_sx(&o)));
+        } else {
+            actors_sx.push(format!("(c {} {})", d.clients[i - d.servers], d.servers));
+            for c in o.iter() {
+                if let Command::Send(_, m) = c { log0.push(format!("(send {} {})", i, m_sx(&m.view()))); }
+            }
+        }
+    }
+    let actors_sx = srh::sx::list(actors_sx);
+    let head = format!("rc-path {} {} {} {}", d.kind, srh::sx::b(wo), d.net, actors_sx);
+    let init = model.init_states();
+    // states are identified as the checkers do: by the hash of the state
+    let fp = |s: &ActorModelState<A, H>| { use std::hash::Hasher; let mut h = std::collections::hash_map::DefaultHasher::new(); s.hash(&mut h); h.finish() };
+    let mut seen: HashSet<u64> = HashSet::new();
+    let mut queue: VecDeque<(ActorModelState<A, H>, Vec<String>, Vec<String>)> = VecDeque::new();
+    for s in init {
+        if seen.insert(fp(&s)) { queue.push_back((s, vec![], log0.clone())); }
+    }
+    let mut visited = 0usize;
+    while let Some((s, path, log)) = queue.pop_front() {
+        visited += 1;
+        // compare this state with the model and feed the oracle
+        let clients = srh::sx::list((d.servers..n).map(|i| {
+            let (aw, oc) = s.actor_states[i].client().unwrap();
+            format!("({} {} {})", i, srh::sx::opt(&aw, |x| x.to_string()), oc)
+        }));
+        out.m(&format!("{} {}", head, srh::sx::list(path.clone())), &format!("clients={} ;; dbg={:?}", clients, s.history));
+        let (valid, content) = content_of(&s.history, wo, lin);
+        if oracle {
+            out.o(&format!("o-c18 {} {} {} {}", srh::sx::b(wo), srh::sx::list(log.clone()), srh::sx::b(valid), content));
+        } else if !valid {
+            out.stat("misbehaving-server-history-became-invalid");
+        }
+        out.stat(&format!("state-depth-{}", path.len().min(12)));
+        out.stat(&format!("log-len-{}", log.len().min(12)));
+        out.distinct(&(3u8, head.clone(), path.clone()));
+        if visited >= max_states { continue; }
+        let mut actions = Vec::new();
+        model.actions(&s, &mut actions);
+        for a in actions {
+            // describe the action for the model (environment outputs spelled out) and extend the log
+            let mut log2 = log.clone();
+            let act_sx = match &a {
+                ActorModelAction::Deliver { src, dst, msg } => {
+                    let di = usize::from(*dst);
+                    let mut st = Cow::Borrowed(&*s.actor_states[di]);
+                    let mut o = AOut::new();
+                    model.actors[di].on_msg(*dst, &mut st, *src, msg.clone(), &mut o);
+                    let changed = matches!(st, Cow::Owned(_));
+                    if di >= d.servers {
+                        if changed {
+                            log2.push(format!("(acc {} {})", di, m_sx(&msg.view())));
+                            for c in o.iter() {
+                                if let Command::Send(_, m) = c { log2.push(format!("(send {} {})", di, m_sx(&m.view()))); }
+                            }
+                        }
+                        format!("(dc {} {})", di, m_sx(&msg.view()))
+                    } else {
+                        format!("(ds {} {} {} {})", di, m_sx(&msg.view()), srh::sx::b(changed), sends_sx(&o))
+                    }
+                }
+                ActorModelAction::Timeout(id, t) => {
+                    let i = usize::from(*id);
+                    let mut st = Cow::Borrowed(&*s.actor_states[i]);
+                    let mut o = AOut::new();
+                    model.actors[i].on_timeout(*id, &mut st, t, &mut o);
+                    format!("(ts {} {})", i, sends_sx(&o))
+                }
+                ActorModelAction::Drop(_) => "drop".to_string(),
+                _ => continue,
+            };
+            let mut path2 = path.clone();
+            path2.push(act_sx);
+            match model.next_state(&s, a.clone()) {
+                None => {
+                    if matches!(a, ActorModelAction::Deliver { .. }) {
+                        out.m(&format!("{} {}", head, srh::sx::list(path2)), "not-a-step");
+                        out.stat("delivery-not-a-step");
+                    }
+                }
+                Some(s2) => {
+                    match &a {
+                        ActorModelAction::Deliver { dst, .. } if usize::from(*dst) >= d.servers => {
+                            out.stat(if log2.len() > log.len() { "delivery-accepted-by-client" } else { "delivery-noop-step-at-client(ordered)" })
+                        }
+                        ActorModelAction::Deliver { .. } => out.stat("delivery-to-server"),
+                        ActorModelAction::Timeout(..) => out.stat("server-timeout"),
+                        _ => out.stat("drop"),
+                    }
+                    if seen.insert(fp(&s2)) { queue.push_back((s2, path2, log2)); }
+                }
+            }
+        }
+    }
+    out.stat(&format!("system-{}-{}-{}", d.kind, if wo { "wo" } else { "reg" }, d.net));
+    out.stat(&format!("system-servers-{}-clients-{}", d.servers, d.clients.len()));
+    out.stat_n("states-visited", visited as u64);
+}
+
+fn net_of<Mg: MsgLike>(k: usize) -> (Network<Mg>, &'static str) {
+    match k {
+        0 => (Network::new_unordered_duplicating([]), "unordered-dup"),
+        1 => (Network::new_unordered_nonduplicating([]), "unordered-nondup"),
+        _ => (Network::new_ordered([]), "ordered"),
+    }
+}
+
+fn system(out: &mut Out, r: &mut Rng, max_states: usize) {
+    let servers = r.range(1, 2);
+    let nclients = r.range(1, 3);
+    let clients: Vec<usize> = (0..nclients).map(|_| r.below(3)).collect();
+    let plan: Arc<Vec<u8>> = Arc::new((0..r.range(3, 9)).map(|_| {
+        // when: now 50%, later 25%, never 10%, now+flush 15%
+        let when = match r.below(20) { 0..=9 => 0u8, 10..=14 => 1, 15 | 16 => 2, _ => 3 };
+        let kind = if r.chance(1, 12) { 7u8 } else { r.below(7) as u8 };
+        (kind << 2) | when
+    }).collect());
+    let netk = r.below(3);
+    let lossy = r.chance(1, 5);
+    let lin = r.chance(1, 2);
+    let wo = r.chance(1, 2);
+    let twice = r.chance(1, 6);
+    macro_rules! build {
+        ($Actor:ident, $Msg:ident, $hist:expr) => {{
+            let (net, netname) = net_of::<$Msg<u64, char, ()>>(netk);
+            let mut m = ActorModel::new((), $hist)
+                .actors((0..servers).map(|_| $Actor::Server(Srv::<$Msg<u64, char, ()>> { plan: plan.clone(), twice, _p: std::marker::PhantomData })))
+                .actors(clients.iter().map(|pc| $Actor::Client { put_count: *pc, server_count: servers }))
+                .init_network(net)
+                .record_msg_in($Msg::record_returns)
+                .record_msg_out($Msg::record_invocations);
+            if lossy { m = m.lossy_network(LossyNetwork::Yes); }
+            let d = SysDesc { kind: if lin { "lin" } else { "sc" }, net: netname, servers, clients: clients.clone() };
+            explore(out, &m, &d, max_states, lin, !twice);
+        }};
+    }
+    match (wo, lin) {
+        (false, true) => build!(RegisterActor, RegisterMsg, LinearizabilityTester::new(Register('?'))),
+        (false, false) => build!(RegisterActor, RegisterMsg, SequentialConsistencyTester::new(Register('?'))),
+        (true, true) => build!(WORegisterActor, WORegisterMsg, LinearizabilityTester::new(WORegister::<char>(None))),
+        (true, false) => build!(WORegisterActor, WORegisterMsg, SequentialConsistencyTester::new(WORegister::<char>(None))),
+    }
+    if lossy { out.stat("system-lossy"); }
+    if twice { out.stat("system-misbehaving-server(model-correspondence-only)"); }
+}
+
 fn main() {
-    let out = Out::new();
+    quiet_panics();
+    let mut out = Out::new();
+    let mut r = Rng::new(seed());
+    let th = thorough();
+    let nseq = arg_u64("--n", if th { 300_000 } else { 30_000 });
+    for i in 0..nseq {
+        match i % 10 {
+            0 | 1 | 2 => { let v = r.below(3) as u8; obj_seq(&mut out, &mut r, &Register(v)) }
+            3 | 4 | 5 => {
+                let init = WORegister(if r.chance(1, 3) { Some(r.below(3) as u8) } else { None });
+                obj_seq(&mut out, &mut r, &init)
+            }
+            6 | 7 | 8 => {
+                let init: Vec<u8> = (0..r.below(3)).map(|_| r.below(3) as u8).collect();
+                obj_seq(&mut out, &mut r, &init)
+            }
+            _ => {
+                let (tbl, s) = gen_table(&mut r);
+                if r.chance(1, 2) {
+                    obj_seq(&mut out, &mut r, &TableSpec::<false> { tbl: Arc::new(tbl), state: s })
+                } else {
+                    obj_seq(&mut out, &mut r, &TableSpec::<true> { tbl: Arc::new(tbl), state: s })
+                }
+            }
+        }
+    }
+    let nsys = arg_u64("--systems", if th { 4000 } else { 300 });
+    let max_states = arg_u64("--max-states", if th { 120 } else { 80 }) as usize;
+    for _ in 0..nsys {
+        system(&mut out, &mut r, max_states);
+    }
     out.finish();
 }
